@@ -360,7 +360,14 @@ func execC14(rc *harness.RunCtx, p *harness.Plan, cfg *Config) *harness.Outcome 
 			for _, o := range h {
 				desc = append(desc, fmt.Sprintf("[%d,%d]c%d:%s", o.Call, o.Return, o.ClientId, regModel.DescribeOperation(o.Input, o.Output)))
 			}
-			return fail(0, "not-linearizable", fmt.Sprintf("history of %s admits no sequential order consistent with real time: %v", k, desc))
+			class := "not-linearizable"
+			for _, o := range h {
+				if o.Input.(keyIn).kind == 1 {
+					class = "not-linearizable+remove" // a remove of this blob is part of the history
+					break
+				}
+			}
+			return fail(0, class, fmt.Sprintf("history of %s admits no sequential order consistent with real time: %v", k, desc))
 		case porcupine.Unknown:
 			out.Reached["porcupine-timeout"]++
 		}
@@ -369,8 +376,22 @@ func execC14(rc *harness.RunCtx, p *harness.Plan, cfg *Config) *harness.Outcome 
 	// 3. enumerate: interval semantics
 	type iv struct{ call, ret uint64 }
 	recvs, removes := map[string][]iv{}, map[string][]iv{}
+	// reads that completed with "present": from such a read on, the blob is
+	// there (whoever put it may not even have returned yet) until a remove
+	// that is not already over when the read began
+	witnessed := map[string][]iv{}
 	for i, h := range hist {
 		_ = i
+		switch h.op.Kind {
+		case "fetch":
+			if h.res.Err == nil {
+				witnessed[refOf(h.op.B[0])] = append(witnessed[refOf(h.op.B[0])], iv{h.res.Call, h.res.Return})
+			}
+		case "stat":
+			for _, sb := range h.res.Stat {
+				witnessed[sb.Ref.String()] = append(witnessed[sb.Ref.String()], iv{h.res.Call, h.res.Return})
+			}
+		}
 		switch h.op.Kind {
 		case "recv":
 			recvs[refOf(h.op.B[0])] = append(recvs[refOf(h.op.B[0])], iv{h.res.Call, h.res.Return})
@@ -432,6 +453,20 @@ func execC14(rc *harness.RunCtx, p *harness.Plan, cfg *Config) *harness.Outcome 
 					stablePresent = true
 				}
 			}
+			for _, rd := range witnessed[k] {
+				if rd.ret >= e.res.Call {
+					continue
+				}
+				ok := true
+				for _, rm := range removes[k] {
+					if rm.ret > rd.call && rm.call < e.res.Return {
+						ok = false
+					}
+				}
+				if ok {
+					stablePresent = true
+				}
+			}
 			// stably absent: never received before the enumerate returned, or
 			// removed before it began with no receive overlapping since
 			stableAbsent := true
@@ -450,7 +485,11 @@ func execC14(rc *harness.RunCtx, p *harness.Plan, cfg *Config) *harness.Outcome 
 				}
 			}
 			if stablePresent && !got[k] && (full || k < last) {
-				return fail(e.i, "enum-missed-stable-blob", fmt.Sprintf("%s [%d,%d] did not list %s, which was present from before it began until after it returned", e.op.String(), e.res.Call, e.res.Return, k))
+				class := "enum-missed-stable-blob"
+				if len(removes[k]) > 0 {
+					class += "+remove"
+				}
+				return fail(e.i, class, fmt.Sprintf("%s [%d,%d] did not list %s, which was present from before it began until after it returned", e.op.String(), e.res.Call, e.res.Return, k))
 			}
 			if stableAbsent && got[k] {
 				return fail(e.i, "enum-listed-absent-blob", fmt.Sprintf("%s [%d,%d] listed %s, which was absent throughout", e.op.String(), e.res.Call, e.res.Return, k))
